@@ -1,6 +1,7 @@
 package main
 
 import (
+	"sync"
 	"fmt"
 	"math/rand"
 	"reflect"
@@ -31,7 +32,7 @@ func (extLookup) Type(name string) (reflect.Type, error) {
 	return nil, fmt.Errorf("not found")
 }
 
-var envNames = []string{"a", "b", "c", "m", "n", "x.y", ".d", "ext1", "ext2", "int64", "T1", "extT", "rune", "zz"}
+var envNames = []string{"a", "b", "c", "m", "n", "x.y", ".d", "ext1", "ext2", "int64", "T1", "extT", "rune", "zz", "m.a", "m.n.b", "n.b", "a.c", "m.b"}
 var envTypes = map[string]reflect.Type{"int8": reflect.TypeOf(int8(0)), "[]string": reflect.TypeOf([]string{}), "bool": reflect.TypeOf(true), "map[string]int": reflect.TypeOf(map[string]int{})}
 
 type envWorld struct {
@@ -475,6 +476,39 @@ func streamEnvAPI(o *Out, r *rand.Rand, n int, thorough bool) {
 		req.WriteString(")")
 		o.Case(req.String(), strings.Join(results, " | ")+" || "+strings.Join(w.dumpAll(), " "), strings.Join(hist, " "), true)
 	}
+	// "set updates the nearest existing binding or fails WITHOUT CREATING ONE" also when a delete of that binding runs at the
+	// same time: once Delete has returned and every Set has returned, the name is unbound
+	rounds := 3000
+	if thorough {
+		rounds = 30000
+	}
+	for round := 0; round < rounds; round++ {
+		e := env.NewEnv()
+		_ = e.Define("x", int64(0))
+		var wg sync.WaitGroup
+		start := make(chan struct{})
+		for g := 0; g < 4; g++ {
+			wg.Add(1)
+			go func(g int) {
+				defer wg.Done()
+				<-start
+				for k := 0; k < 40; k++ {
+					_ = e.Set("x", int64(g*100+k))
+				}
+			}(g)
+		}
+		close(start)
+		e.Delete("x")
+		wg.Wait()
+		o.Sum.Evaluations++
+		o.Sum.Hist["set-vs-delete-round"]++
+		if v, err := e.Get("x"); err == nil {
+			o.Fail(Failure{Oracle: "set-never-creates", Key: "env-set-recreates-deleted-binding", Input: "Define(x); 4 goroutines Set(x, ...) x 40 while the main goroutine runs Delete(x); afterwards Get(x)",
+				Detail: fmt.Sprintf("round %d: x is bound to %v after Delete(x) returned and no Define followed - a Set created the binding", round, v)})
+			break
+		}
+	}
+
 }
 
 // parentOf reads the unexported parent link through the documented String() header and a probe:
